@@ -218,6 +218,14 @@ class C02:
                              "include(\"%sinc_ok.conf\")\n%s = 1\n" % (longpath, "z" * (2 * n)),
                              "include(\"%sinc_ok.conf\")\ni = %s\n" % (longpath, "9" * (2 * n))):
                     shapes.append({"schema": "mixed", "flags": 0, "via": "buf", "text": [X(body)], "shape": "long-diagnostic", "noerr": noerr})
+        # text that ends up inside a diagnostic must never be taken for a format: conversion specifications in file
+        # names, option names, values and titles
+        for spec in ("%s%s%s%s%s%s", "%n", "%1$s%2$s", "%99999d", "%*d%*d", "%ls%ls", "%%%s", "%"):
+            for noerr in (False, True):
+                for body in ("include(\"/nonexistent/%s\")\n" % spec, "include(\"%s\")\n" % spec, "%s = 1\n" % spec, "i = \"%s\"\n" % spec,
+                             "tm \"%s\" { zz = 1 }\n" % spec, "fn(%s\n" % spec, "i += \"%s\"\n" % spec, "single { \"%s\" }\n" % spec,
+                             "b = \"%s\"\n" % spec, "f = \"%s\"\n" % spec):
+                    shapes.append({"schema": "mixed", "flags": 0, "via": "buf", "text": [X(body)], "shape": "format-in-diagnostic", "noerr": noerr})
         for cm in ["#", "//", "/**/", "/* */", "##", "# ", "//\n", "#\n", "/*\n*/", "/***/", "/* * */", "#\t", "// \t "]:
             for pre in ["", "i = 1\n"]:
                 for post in ["", "\n", "\ni = 3\n", " i = 3"]:
